@@ -1,10 +1,10 @@
-(* table property id -> extracted entry point *)
+(* GENERATED: table property id -> extracted entry point *)
 open Model
 let lookup (p : string) : sx -> sx =
   match p with
-  | "C13" -> run_C13
-  | "C08" -> run_C08
   | "C04" -> run_C04
-  | "C12" -> run_C12
   | "C06" -> run_C06
+  | "C08" -> run_C08
+  | "C12" -> run_C12
+  | "C13" -> run_C13
   | _ -> failwith ("no model entry point for " ^ p)
